@@ -119,6 +119,8 @@ async def execute(net, hyg, plan):
             else:
                 got, st = await p.read_data(dr, wait=8.0, limit=plan.get("stall_after"))
                 data["got"], data["status"] = got, st
+                if st == "limit" and state.get("k0") is not None:
+                    state["stall_event"] = len(net.events) - state["k0"]
                 if st != "limit":
                     dw.close()
                 # status "limit": the peer stops reading and keeps the socket open (stalled download)
@@ -295,7 +297,7 @@ async def execute(net, hyg, plan):
         p.cut("fin")
         await w.stop()
         return {"violations": viol, "monitors": mon,
-                "nevents": nevents if not plan.get("no_transfer") else 0,
+                "nevents": nevents if not plan.get("no_transfer") else 0, "stall_event": state.get("stall_event"),
                 "sig": sig_of([verb, mode, size, seq, len(data["got"]), data["sent"], phase]),
                 "seq": seq, "phase": phase, "moved": len(data["got"]) or data["sent"]}
     finally:
@@ -413,9 +415,15 @@ def run_case(case):
         return out
     base["k"] = None
     res0 = run_plan(base)       # fault-free run: ABOR after completion
+    if case.get("late_is_timeout"):
+        # a stalled peer and a configured time-out: by the time of the late ABOR the server has rightly given the session up
+        # (C16); only the event count of this run is used
+        res0 = dict(res0, violations=[v for v in res0.get("violations", []) if not v["key"].startswith(("session-dropped", "followup-failed"))])
     if not merge(res0, base, "late"):
         return out
     N = res0["nevents"]
+    if case.get("late_is_timeout") and res0.get("stall_event") is not None:
+        N = min(N, res0["stall_event"] + 4)      # ABOR positions up to the moment the peer stops reading (and a little after)
     phases = {}
     positions = 0
     for k in [-1] + list(range(0, N, case.get("stride", 1))):
@@ -512,6 +520,11 @@ def gen_cases(tier, seed):
     for fu in (["pwd+retr"] if tier == "quick" else fus):
         cases.append({"kind": "enum", "stride": 9 if tier == "quick" else 3,
                       "plan": {"verb": "RETR", "size": 500000, "connect": "before", "stall_after": 20000, "seed": seed, "followup": fu}})
+    # ... the same with time-outs configured (the abort must not wait for the peer to read what is still unsent)
+    for kw in ({"socket_timeout": 2}, {"socket_timeout": 3, "idle_timeout": 30}):
+        cases.append({"kind": "enum", "stride": 9 if tier == "quick" else 3, "late_is_timeout": True,
+                      "plan": {"verb": "RETR", "size": 500000, "connect": "before", "stall_after": 20000, "seed": seed, "followup": "pwd+retr",
+                               "server_kwargs": kw}})
     for fu in fus:
         cases.append({"kind": "single", "plan": {"verb": "RETR", "size": 0, "no_transfer": True, "followup": fu, "seed": seed}})
     # aioftp's own client aborts in mid-transfer and goes on
